@@ -443,6 +443,70 @@ func c08UnknownBody(c *Ctx) {
 		tests = hasTest(fn, 0)
 		c.Check(tests, "unknownbody", FuncName(fn)+":child[UnknownBody]", pos, "unknown child bodies yield an unknown value",
 			"the spec decodes child block bodies but has no UnknownBody test: with an unknown for_each it returns a known value although zero or many blocks are possible")
+		// in a per-block loop: once the child has been decoded the iteration cannot end without the test
+		for _, scc := range sccBlocks(fn.Blocks, nil) {
+			if len(scc) < 2 {
+				continue
+			}
+			in := map[*ssa.BasicBlock]bool{}
+			for _, b := range scc {
+				in[b] = true
+			}
+			var decB, testB []*ssa.BasicBlock
+			for _, b := range scc {
+				for _, ins := range b.Instrs {
+					if call, ok := ins.(*ssa.Call); ok {
+						if call.Call.StaticCallee() == dec && strings.HasSuffix(pathName(call.Call.Args[0]), ".Body") {
+							decB = append(decB, b)
+						} else if cal := call.Call.StaticCallee(); cal != nil && cal != dec && fnPkg(cal) != nil && fnPkg(cal).Path() == modPath+"/hcldec" && len(cal.Blocks) > 0 && hasTest(cal, 1) {
+							for _, a := range call.Call.Args {
+								if isNamed(a.Type(), modPath, "Body") {
+									testB = append(testB, b)
+								}
+							}
+						}
+					}
+					if ta, ok := ins.(*ssa.TypeAssert); ok && isNamed(ta.AssertedType, modPath+"/hcldec", "UnknownBody") {
+						testB = append(testB, b)
+					}
+				}
+			}
+			if len(decB) == 0 || len(testB) == 0 {
+				continue
+			}
+			var header *ssa.BasicBlock
+			for _, b := range scc {
+				for _, p := range b.Preds {
+					if !in[p] {
+						header = b
+					}
+				}
+			}
+			if header == nil {
+				continue
+			}
+			dom := func(by []*ssa.BasicBlock, b *ssa.BasicBlock) bool {
+				for _, d := range by {
+					if d == b || d.Dominates(b) {
+						return true
+					}
+				}
+				return false
+			}
+			for _, p := range header.Preds {
+				if !in[p] || !dom(decB, p) {
+					continue
+				}
+				at := pos
+				for _, x := range p.Instrs {
+					if x.Pos() != token.NoPos {
+						at = x.Pos()
+					}
+				}
+				c.Check(dom(testB, p), "unknownbody", FuncName(fn)+":loop[next]", at, "the UnknownBody test is passed before the iteration ends",
+					"after decoding a child block the loop goes on to the next block on a path that has not tested the body for UnknownBody: an unknown placeholder block (unknown for_each) that takes this path (a duplicate label, say) yields a known result and a spurious error")
+			}
+		}
 	}
 	c.Floor("unknownbody specs", n, 6, "BlockSpec, BlockListSpec, BlockTupleSpec, BlockSetSpec, BlockMapSpec, BlockObjectSpec")
 }
